@@ -187,9 +187,14 @@ def gen_case(rng, cid, maxdepth):
     if stratum == "paren_operand":
         # a group whose last word is an operand spelled like a parenthesis: ( ... -name '(' ) is a well-formed group
         inner = rng.choice([["-name", "("], ["-type", "f", "-o", "-name", "("], ["-name", "*a*", "-o", "-path", "("], ["!", "-name", ")", "-name", "("],
-                            ["-name", ")"], ["-type", "d", "-printf", "D:%p\\n", "-o", "-name", "("]])
+                            ["-name", ")"], ["-type", "d", "-printf", "D:%p\\n", "-o", "-name", "("],
+                            # (round 9) the operand of any primary is taken as it stands, also when it is spelled like an operator
+                            ["-printf", ")"], ["-name", "*a*", "-printf", "("], ["-type", "f", "-printf", ","], ["-printf", "!"],
+                            ["-type", "d", "-o", "-printf", "-o"], ["-printf", "-a"], ["-name", "!", "-o", "-printf", ")"],
+                            ["-path", ",", "-o", "-iname", "-o", "-o", "-printf", "-not"]])
         toks = rng.choice([["("] + inner + [")", "-o", "-printf", "N:%p\\n"], ["!", "("] + inner + [")", "-printf", "M:%p\\n"],
-                           ["(", "("] + inner + [")", ")", "-o", "-name", "*", "-printf", "K:%p\\n"]])
+                           ["(", "("] + inner + [")", ")", "-o", "-name", "*", "-printf", "K:%p\\n"],
+                           inner + ["-o", "-printf", "T:%p\\n"], inner])
     if stratum == "nest_at_limit":
         # parentheses nested as deep as the parser allows (200) and one less: still an ordinary expression
         k_ = rng.choice([199, 200, 200, 150])
